@@ -1355,7 +1355,8 @@ class TTNS(TTNBase):
             indices1 = tuple(indices1)
             indices2 = tuple(indices2)
             new_node.tensor[indices1] = node1.tensor
-            new_node.tensor[indices2] = node2.tensor
+            # the two blocks are disjoint unless the tree has a single node (no virtual index), where they coincide
+            new_node.tensor[indices2] += node2.tensor
             if node1 is self.root:
                 np.testing.assert_allclose(node1.qn, node2.qn)
                 new_node.qn = node1.qn.copy()
